@@ -19,6 +19,7 @@ func init() {
 	register(&Scenario{Prop: "C11", Name: "gate-seq", Run: func(rc *RunCtx) { runGateSeq(rc, "C11") }})
 	register(&Scenario{Prop: "C11", Name: "gate-conc", Run: func(rc *RunCtx) { runGateConc(rc) }})
 	register(&Scenario{Prop: "C17", Name: "gate-expiry", Run: func(rc *RunCtx) { runGateSeq(rc, "C17") }})
+	register(&Scenario{Prop: "C17", Name: "gate-expiry-conc", Run: runGateExpiryConc})
 	register(&Scenario{Prop: "C11", Name: "gate-enum", Run: func(rc *RunCtx) { runGateEnum(rc, "C11") }})
 	register(&Scenario{Prop: "C17", Name: "gate-enum", Run: func(rc *RunCtx) { runGateEnum(rc, "C17") }})
 }
@@ -659,4 +660,127 @@ func runGateConc(rc *RunCtx) {
 	}
 	sort.Strings(keys)
 	rc.Logf("compositions %v", keys)
+}
+
+// ---- C17 under concurrent senders: expiry order vs. arrival order -----------------------
+//
+// Several tasks open groups concurrently under the simulator's ticking clock
+// (every clock read of the filter advances time), then a prober advances time
+// in small steps and calls Process: after every successful call at T, every
+// group whose expiry certainly lies before T must have reached the Sender.
+
+func runGateExpiryConc(rc *RunCtx) {
+	tp := rc.Tape
+	sim := rc.Sim
+	h := &gateHarness{composeFail: map[int]bool{}, composeGate: map[int]bool{}, sendFail: map[int]bool{}}
+	E := time.Duration(2000+tp.Choose(20000, "expiration")) * time.Nanosecond
+	// the filter's clock: the simulator's ticking clock, logged per task so that
+	// the oracle knows exactly which instants each Process call saw
+	type nowRec struct {
+		task int
+		t    time.Time
+	}
+	var nowLog []nowRec
+	gf := &gated.Filter{Expiration: E, Broker: &fakeSender{h}}
+	gf.NowFunc = func() time.Time {
+		t := simrt.Now("gate:nowfunc")
+		nowLog = append(nowLog, nowRec{simrt.TaskID(), t})
+		return t
+	}
+	seen := func(from int) (lo, hi time.Time) {
+		me := simrt.TaskID()
+		for _, r := range nowLog[from:] {
+			if r.task != me {
+				continue
+			}
+			if lo.IsZero() || r.t.Before(lo) {
+				lo = r.t
+			}
+			if r.t.After(hi) {
+				hi = r.t
+			}
+		}
+		return
+	}
+	type grp struct {
+		seq   int
+		expHi time.Time // the group's expiry is not later than this instant
+	}
+	var groups []*grp
+	seq := 0
+	nSenders := 2 + tp.Choose(3, "nsenders")
+	for s := 0; s < nSenders; s++ {
+		k := 1 + tp.Choose(3, "nevents")
+		var mine []*grp
+		for i := 0; i < k; i++ {
+			seq++
+			g := &grp{seq: seq}
+			mine = append(mine, g)
+			groups = append(groups, g)
+		}
+		sim.Spawn(fmt.Sprintf("opener%d", s), func() {
+			for _, g := range mine {
+				simrt.Yield("opener:step")
+				from := len(nowLog)
+				_, err := gf.Process(context.Background(), &el.Event{Type: "t", Payload: &gPayload{ID: fmt.Sprintf("g%d", g.seq), Seq: g.seq, h: h}})
+				if err != nil {
+					g.seq = -g.seq // not accepted
+					continue
+				}
+				_, hi := seen(from)
+				if !hi.IsZero() {
+					g.expHi = hi.Add(E) // opened no later than the last instant this call saw
+				}
+			}
+		})
+	}
+	sim.Run(nil)
+	if sim.Stuck {
+		rc.Failf("C17.stuck", stuckClass(sim), "concurrent openers did not finish: %s", strings.Join(sim.StuckInfo, "; "))
+		return
+	}
+	type call struct {
+		tlo     time.Time // the earliest instant the call saw
+		ok      bool
+		emitted map[int]bool // groups that had reached the Sender when the call returned
+	}
+	var calls []*call
+	nProbes := 4 + tp.Choose(8, "nprobes")
+	sim.Spawn("prober", func() {
+		for i := 0; i < nProbes; i++ {
+			// small steps, so that some probe lands between two expiries that are only a few clock ticks apart
+			simrt.Sleep(time.Duration(1+tp.Choose(int(E/2), "step")), "prober:wait")
+			c := &call{emitted: map[int]bool{}}
+			seq++
+			from := len(nowLog)
+			_, err := gf.Process(context.Background(), &el.Event{Type: "t", Payload: &gPayload{ID: fmt.Sprintf("probe%d", i), Seq: 100000 + seq, h: h}})
+			c.ok = err == nil
+			c.tlo, _ = seen(from)
+			for _, p := range h.sendLog {
+				if cp, ok := p.(*compPayload); ok {
+					for _, x := range cp.Seqs {
+						c.emitted[x] = true
+					}
+				}
+			}
+			calls = append(calls, c)
+		}
+	})
+	sim.Run(nil)
+	rc.NonTrivial = len(groups) > 2
+	rc.Desc = map[string]interface{}{"expiration": E.String(), "openers": nSenders, "groups": len(groups), "probes": nProbes}
+	for _, c := range calls {
+		if !c.ok || c.tlo.IsZero() {
+			continue
+		}
+		for _, g := range groups {
+			if g.seq < 0 || g.expHi.IsZero() {
+				continue
+			}
+			if c.tlo.After(g.expHi) && !c.emitted[g.seq] {
+				rc.Failf("C17.expired-remains", "concurrent-open", "group #%d expired no later than +%v, yet after a successful Process call made at +%v it had not been emitted through the Broker (emitted so far: %v)", g.seq, g.expHi.Sub(sim.Epoch), c.tlo.Sub(sim.Epoch), c.emitted)
+				return
+			}
+		}
+	}
 }
